@@ -51,6 +51,16 @@ type Lit struct {
 	Init    bool     `json:"initialized"`
 }
 
+// Own: the literal sets PrepareStmt or SkipHooks, so Session gives the derived handle its own Statement.
+func (l Lit) Own() bool {
+	for _, f := range l.Fields {
+		if f == "PrepareStmt" || f == "SkipHooks" {
+			return true
+		}
+	}
+	return false
+}
+
 func (l Lit) Key() string { return fmt.Sprintf("%s:%s#%d", l.File, l.Func, l.Ord) }
 
 type Facts struct {
